@@ -30,7 +30,7 @@ type imgChecker struct {
 }
 
 func (k *imgChecker) fail(class, key, format string, a ...any) {
-	if k.class != "" && (class == "data_lost" || class == "data_changed" || class == "migrated_block_emptied" || class == "block_unreadable") {
+	if k.class != "" && (class == "data_lost" || class == "data_changed" || class == "migrated_block_emptied" || class == "block_unreadable" || class == "block_lost") {
 		class = k.class
 	}
 	panic(softFail{mismatch{class, key, fmt.Sprintf(format, a...)}})
@@ -99,11 +99,14 @@ func (k *imgChecker) checkBlock(b *chaingen.Block, wantSDL bool) {
 		if _, herr := bc.BlockHeaderByNumber(num); herr == nil {
 			if has, _ := core.BlockTransactionsBucket.Has(k.img, num); !has {
 				k.evals++
-				kind := "block_with_transactions"
+				// Two classes, because the minimiser keeps a shrunk tape whenever the CLASS persists: a lost
+				// block that had transactions must not shrink into the documented behaviour of the unchanged
+				// code for blocks without transactions (known finding block_unreadable:no_combined_entry_empty_block)
+				class, kind := "block_lost", "block_with_transactions"
 				if len(b.B.Transactions) == 0 {
-					kind = "empty_block"
+					class, kind = "block_unreadable", "empty_block"
 				}
-				k.fail("block_unreadable", "no_combined_entry_"+kind, "BlockByNumber(%d) fails with %v: the block (%d transactions) has a header but no entry in the combined transactions bucket", num, err, len(b.B.Transactions))
+				k.fail(class, "no_combined_entry_"+kind, "BlockByNumber(%d) fails with %v: the block (%d transactions) has a header but no entry in the combined transactions bucket", num, err, len(b.B.Transactions))
 			}
 		}
 	}
